@@ -242,7 +242,7 @@ def run(chk):
         for i in range(depth):
             d = ""
             if hasd[i]:
-                d = " public destructor() -> void { echo(\"~R%d a\"); if (k == 1) { %s } echo(\"~R%d b\"); }" % (i, "return;" if rets[i] else "echo(\"-\");", i)
+                d = " public destructor() -> void { echo(\"~R%d a\"); int hv = helper7(); if (k == 1) { %s } echo(\"~R%d b\"); }" % (i, "return;" if rets[i] else "echo(\"-\");", i)
             src.append("class R%d%s { %spublic constructor() -> R%d = default;%s }" % (i, (" extends R%d" % (i - 1)) if i else "", "public int k = 1; " if i == 0 else "", i, d))
         for i in reversed(range(depth)):
             if hasd[i]:
@@ -253,7 +253,11 @@ def run(chk):
             src.append("function main() -> void { { R%d o = new R%d(); echo(\"in\"); } echo(\"after\"); }" % (depth - 1, depth - 1))
         else:
             # the object dies while a `return` of its function is unwinding
-            src.append("function mk() -> int { R%d o = new R%d(); echo(\"in\"); return 5; }\nfunction main() -> void { int r = mk(); echo(\"after\"); }" % (depth - 1, depth - 1))
+            src.append("function mk() -> int { if (true) { R%d o = new R%d(); echo(\"in\"); return 5; } return 0; }\nfunction main() -> void { int r = mk(); echo(\"after\"); echo(r); }" % (depth - 1, depth - 1))
+            src.insert(0, "function helper7() -> int { return 7; }")
+            drs.append(("\n".join(src), ["in"] + want + ["after", "5"]))
+            continue
+        src.insert(0, "function helper7() -> int { return 7; }")
         drs.append(("\n".join(src), ["in"] + want + ["after"]))
     _l3, drimpl, _m3, _inc3 = evallib.run_programs([(d[0], []) for d in drs], with_model=False)
     for (src, want), a in zip(drs, drimpl):
